@@ -271,6 +271,38 @@ def differential_modules(start):
 '''
     mods.append(Module(f'm{start + 1:04d}', 'differential: struct St { a, b } and enum En { A(u8), B { x, y }, C } with each trait alone vs. with every trait educed (expansion against expansion)', body, [h3, h4],
                        sample=dict(type_definition='struct St { a: u8, b: u16 }; enum En { A(u8), B { x: u8, y: u8 }, C }'), functions=FUNCTIONS))
+    # wide shapes (5 fields) in which every trait ignores a *different* field: t alone (with its own attribute) vs. all traits with all attributes
+    def wdecl(traits, own, derives):
+        at = lambda i: ('#[educe(' + ', '.join(own[i]) + ')] ' if own.get(i) else '')
+        fs = ', '.join(f'{at(i)}pub {nm}: u8' for i, nm in enumerate('abcde'))
+        vf = ', '.join(f'{at(i)}u8' for i in range(5))
+        return (f'#[derive(Educe)]\n#[educe({traits})]\n{derives}pub struct W {{ {fs} }}\n'
+                f'#[derive(Educe)]\n#[educe({traits})]\n{derives}pub enum V {{ T({vf}), U }}\n')
+    own_all = {1: ['PartialEq(ignore)'], 2: ['Hash(ignore)'], 3: ['Ord(ignore)'], 4: ['Debug(ignore)']}
+    body = 'use crate::support::dbg::*;\n'
+    body += 'pub mod all { use educe::Educe; ' + wdecl('Debug, Clone, PartialEq, Eq, PartialOrd, Ord, Hash', own_all, '') + '}\n'
+    body += 'pub mod peq { use educe::Educe; ' + wdecl('PartialEq', {1: ['PartialEq(ignore)']}, '') + '}\n'
+    body += 'pub mod hash { use educe::Educe; ' + wdecl('Hash', {2: ['Hash(ignore)']}, '') + '}\n'
+    body += 'pub mod ord { use educe::Educe; ' + wdecl('PartialOrd, Ord', {3: ['Ord(ignore)']}, '#[derive(PartialEq, Eq)]\n') + '}\n'
+    body += 'pub mod dbg1 { use educe::Educe; ' + wdecl('Debug', {4: ['Debug(ignore)']}, '') + '}\n'
+    mkw = lambda m, v: f'{m}::W {{ a: {v}[0], b: {v}[1], c: {v}[2], d: {v}[3], e: {v}[4] }}'
+    mkv = lambda m, v: f'{m}::V::T({v}[0], {v}[1], {v}[2], {v}[3], {v}[4])'
+    h5 = Harness('h_wide_same', unwind=10, covers=['reached'])
+    body += h5.attrs() + f'''pub fn h_wide_same() {{
+    let x: [u8; 5] = Sym::sym();
+    let y: [u8; 5] = Sym::sym();
+    kani::cover!(true, "reached");
+    assert!(({mkw('peq', 'x')} == {mkw('peq', 'y')}) == ({mkw('all', 'x')} == {mkw('all', 'y')}), "wide struct PartialEq alone vs. with every trait");
+    assert!(({mkv('peq', 'x')} == {mkv('peq', 'y')}) == ({mkv('all', 'x')} == {mkv('all', 'y')}), "wide variant PartialEq alone vs. with every trait");
+    assert!(Ord::cmp(&{mkw('ord', 'x')}, &{mkw('ord', 'y')}) == Ord::cmp(&{mkw('all', 'x')}, &{mkw('all', 'y')}), "wide struct Ord alone vs. with every trait");
+    assert!(PartialOrd::partial_cmp(&{mkw('ord', 'x')}, &{mkw('ord', 'y')}) == PartialOrd::partial_cmp(&{mkw('all', 'x')}, &{mkw('all', 'y')}), "wide struct PartialOrd alone vs. with every trait");
+    assert!(Ord::cmp(&{mkv('ord', 'x')}, &{mkv('ord', 'y')}) == Ord::cmp(&{mkv('all', 'x')}, &{mkv('all', 'y')}), "wide variant Ord alone vs. with every trait");
+    assert!(rec_of(&{mkw('hash', 'x')}).same(&rec_of(&{mkw('all', 'x')})), "wide struct Hash alone vs. with every trait");
+    assert!(rec_of(&{mkv('hash', 'x')}).same(&rec_of(&{mkv('all', 'x')})), "wide variant Hash alone vs. with every trait");
+}}
+'''
+    mods.append(Module(f'm{start + 2:04d}', 'differential: 5-field struct and variant in which every trait ignores a different field, each trait alone vs. all traits together', body, [h5],
+                       sample=dict(type_definition='struct W { a, #[PartialEq(ignore)] b, #[Hash(ignore)] c, #[Ord(ignore)] d, #[Debug(ignore)] e }'), functions=FUNCTIONS))
     return mods
 
 
